@@ -333,6 +333,64 @@ def nanfill(chk, prog):
         chk.finding("NANFILL.intervals", CORE, "get_nan_intervals", "interval construction", why, line=node.lineno)
 
 
+def nanfill_sampled(chk, prog):
+    """NANFILL.sample: slerp_nan is interpreted on a symbolic 9-row array whose NaN intervals are given ((1,1) and (3,5): two gaps of different lengths) with slerp
+    replaced by a recorder that returns marker rows.  Whatever the code looks like: each gap is filled by ONE slerp call between the rows just before and just
+    after it, with the weights k/(n+1), k = 1..n of ITS OWN length n and slerp's own options; the marker rows land exactly on the gap; every other row is untouched."""
+    f = prog.func(QUAT + "::QuaternionArray.slerp_nan")
+    n_rows = 9
+    gaps = [(1, 1), (3, 5)]
+    Q = np.empty((n_rows, 4), dtype=object)
+    for i in range(n_rows):
+        for j, c_ in enumerate("wxyz"):
+            Q[i, j] = P.sym("nf%d%s" % (i, c_))
+
+    def law():
+        from sa.lib import quat_obj
+        calls = []
+
+        def fake_slerp(it_, a, k):
+            a = list(a)
+            names = ["p", "q", "t_array", "threshold"]
+            kw = dict(zip(names, a))
+            kw.update(k)
+            t = to_obj(kw["t_array"])
+            out = np.empty((len(t), 4), dtype=object)
+            for r_ in range(len(t)):
+                for j_ in range(4):
+                    out[r_, j_] = P.sym("fill%d_%d_%d" % (len(calls), r_, j_))
+            calls.append((to_obj(kw["p"]), to_obj(kw["q"]), t, kw.get("threshold"), out))
+            return out
+        it = Interp(prog, intercepts={QUAT + "::slerp": fake_slerp, CORE + "::get_nan_intervals": lambda it_, a, k: list(gaps),
+                                      QUAT + "::QuaternionArray.remove_jumps": lambda it_, a, k: None})
+        obj = quat_obj(it, Q.copy(), cls="QuaternionArray")
+        res = it.run(f, [], {"inplace": False}, self_obj=obj)
+        res = to_obj(res)
+        if len(calls) != len(gaps):
+            return (False, "slerp is called %d times for %d NaN gaps" % (len(calls), len(gaps)), None)
+        out = []
+        filled = {}
+        for k_, ((i0, i1), (p_, q_, t_, thr, rows)) in enumerate(zip(gaps, calls)):
+            n_ = i1 - i0 + 1
+            out.append(eq(p_, Q[i0 - 1], "first endpoint of gap %s" % ((i0, i1),)))
+            out.append(eq(q_, Q[i1 + 1], "second endpoint of gap %s" % ((i0, i1),)))
+            tv = [float(x.const()) if isinstance(x, P.Rat) and x.const() is not None else (float(x) if not isinstance(x, P.Rat) else None) for x in np.asarray(t_, dtype=object).flat]
+            want = [k2 / (n_ + 1.0) for k2 in range(1, n_ + 1)]
+            if None in tv or len(tv) != n_ or any(abs(a_ - b_) > 1e-12 for a_, b_ in zip(tv, want)):
+                out.append((False, "the gap %s of %d row(s) is interpolated at the weights %s, expected %s (equal steps between ITS neighbours)" % ((i0, i1), n_, [round(x, 4) if x is not None else x for x in tv], [round(x, 4) for x in want]), None))
+            if thr is not None:
+                tc = float(thr.const()) if isinstance(thr, P.Rat) and thr.const() is not None else thr
+                if tc != 0.9995:
+                    out.append((False, "slerp is called with threshold=%s instead of its own default" % (tc,), None))
+            for r_ in range(n_):
+                filled[i0 + r_] = rows[r_]
+        for i in range(n_rows):
+            out.append(eq(res[i], filled.get(i, Q[i]), "row %d of the result" % i))
+        return all_of(*out)
+    chk.ob("NANFILL.sample", f.ref + "::gaps (1,1),(3,5)", "each gap is filled by one slerp call between its neighbours with equal-step weights of its own length; other rows untouched", law,
+           module=QUAT, function=f.qname, construct="gap filling on a sample layout", line=f.node.lineno)
+
+
 def jumps_twin(chk, prog):
     a = prog.func(QUAT + "::QuaternionArray.remove_jumps")
     b = prog.func(ORI + "::q_correct")
@@ -476,6 +534,7 @@ def canaries(chk, prog):
 def run(chk, prog, tier):
     slerp_rules(chk, prog)
     nanfill(chk, prog)
+    nanfill_sampled(chk, prog)
     jumps_twin(chk, prog)
     chk.require_count("TWIN.slerp", 4)
     chk.require_count("SLERP.unit", 2)
